@@ -164,3 +164,13 @@ impl<M: Math, P: Point<M>> Collector<M, P> for AcceptanceRateCollector {
         self.max_energy_error = 0.;
     }
 }
+
+#[cfg(nuts_rs_verif)]
+impl DualAverage {
+    pub fn verif_state(&self) -> ([f64; 4], u64) {
+        (
+            [self.log_step, self.log_step_adapted, self.hbar, self.mu],
+            self.count,
+        )
+    }
+}
